@@ -332,6 +332,7 @@ pub fn property() -> Property {
     Property {
         id: "C05",
         subs: vec![sub::<CnfCompile>(), sub::<Expr>()],
+        fuzz: vec![],
         assumptions: vec![
             "CNFs over <= 7 variables, expressions over <= 6 variables and depth <= 5",
             "the SDD builder's vtree covers every variable of the input (labels 0..n-1, or the dtree-derived vtree which holds exactly the mentioned variables)",
